@@ -1174,3 +1174,69 @@ func sameCell(a, b ssa.Value) bool {
 	}
 	return storedIn(a, b) || storedIn(b, a)
 }
+
+// R2.8: "not local yet" is decided by asking whether the local ref exists, not by how a read failed.
+func checkNewOnlyWhenRefAbsent(c *Ctx) {
+	w := c.W
+	c.Doc("R2.8", "in the merge functions, the CopyRef that creates a local entity from the remote one is control dependent on the false result of RefExist(<that local ref>) whose own error was handled: a failed or refused read of an existing local entity must never be mistaken for 'not here yet' (the local ref would be overwritten with the remote head and unpushed local work lost)")
+	n := 0
+	for _, fn := range mergeFns(w) {
+		for _, cl := range Calls(fn) {
+			if primEffect(cl.Name) != "REF:CopyRef" {
+				continue
+			}
+			n++
+			c.Sites++
+			args := cl.Args()
+			dest := args[len(args)-1]
+			ok, why := false, "the creation of the local ref is not conditional on RefExist(local ref) being false"
+			for _, cc := range controlConds(cl.Block(), nil) {
+				cond, edge := cc.If.Cond, cc.Edge
+				for {
+					if u, isU := cond.(*ssa.UnOp); isU && u.Op == token.NOT {
+						cond, edge = u.X, 1-edge
+						continue
+					}
+					break
+				}
+				ex, isEx := cond.(*ssa.Extract)
+				if !isEx || ex.Index != 0 {
+					continue
+				}
+				rc, isCall := ex.Tuple.(*ssa.Call)
+				if !isCall {
+					continue
+				}
+				if nm, _ := callName(rc.Common()); !strings.HasSuffix(nm, ".RefExist") {
+					continue
+				}
+				if edge != 1 {
+					why = "the local ref is created on the edge where RefExist answered true"
+					continue
+				}
+				ra := (&Call{Instr: rc}).Args()
+				if len(ra) == 1 && (ra[0] == dest || sameExprStr(ra[0], dest)) && dominatedBySuccess(rc, cl.Instr) {
+					ok = true
+				} else {
+					why = "RefExist is asked about another ref than the one created, or its error is not handled"
+				}
+			}
+			c.Check(ok, "R2.8", funcName(fn)+":new-only-when-local-ref-absent", w.InstrPos(cl.Instr), "created only when RefExist(local ref) is false", why)
+		}
+	}
+	if n < 2 {
+		c.Violate("R2.8", "expected:CopyRef-sites", "module", fmt.Sprintf("%d CopyRef sites in merge functions (reference 2)", n))
+	}
+}
+
+// sameExprStr: two string values built the same way (same SSA value, or the same concatenation / Sprintf of the same operands)
+func sameExprStr(a, b ssa.Value) bool {
+	if a == b {
+		return true
+	}
+	ta, tb := templatesOf(a), templatesOf(b)
+	if len(ta) != 1 || len(tb) != 1 {
+		return false
+	}
+	return ta[0].String() == tb[0].String()
+}
